@@ -47,6 +47,7 @@ func profile(name string) Profile {
 	case "C20":
 		w["search"], w["collect"], w["del"], w["upd"] = 20, 25, 12, 20
 		w["chain"] = 4
+		w["stalerefine"] = 5
 	case "golden":
 		// what the PINNED release can run without meeting its known defects: plain writes
 		for k := range w {
@@ -661,6 +662,31 @@ func (e *Exec) GenOp(r *rand.Rand, p Profile) []string {
 			ls = append(ls, fmt.Sprintf("one %d @mode", nextSid))
 		}
 		return ls
+	case "stalerefine":
+		// a kept search on an integer field, then one of its objects is updated on THAT field, then the
+		// kept value is refined on the same field (the range idiom, later), then collected: the refinement
+		// is evaluated on what the objects hold NOW
+		fld := shape.FA
+		u := e.pickLive(r)
+		if u == 0 {
+			return e.GenOp(r, p)
+		}
+		f, ok := e.spec.live[u]
+		if !ok || e.spec.off {
+			return e.GenOp(r, p)
+		}
+		f.U = u
+		nextSid++
+		s1 := nextSid
+		out := []string{fmt.Sprintf("search %d %d ge i-200 native", s1, fld)}
+		f.K[fld] = fmt.Sprintf("i%d", []int{-100, -3, 7, 100, 120}[r.Intn(5)])
+		out = append(out, "ins "+f.String())
+		if pct(r, 40) {
+			out = append(out, "ins "+genRec(r, e.cfg).String())
+		}
+		nextSid++
+		out = append(out, fmt.Sprintf("and %d %d %d %s i%d native", nextSid, s1, fld, []string{"lt", "le", "gt", "ge", "eq"}[r.Intn(5)], []int{-3, 5, 7, 100}[r.Intn(4)]))
+		return append(out, fmt.Sprintf("len %d", nextSid), fmt.Sprintf("collect %d -1 0 1", nextSid))
 	case "and", "or":
 		old := e.pickSid(r)
 		if old < 0 {
